@@ -939,7 +939,26 @@ func (tc *typechecker) binaryOp(expr1 ast.Expression, op ast.OperatorType, expr2
 			}
 		}
 
-		c, err := t1.Constant.binaryOp(op, t2.Constant)
+		var c constant
+		var err error
+		c1 := t1.Constant
+		if k := constantOperationKind(t1, t2); !isShift && reflect.Float32 <= k && k <= reflect.Complex128 {
+			// The operands are floating-point or complex constants, even
+			// if they are represented as integers.
+			switch op {
+			case ast.OperatorModulo, ast.OperatorBitAnd, ast.OperatorBitOr, ast.OperatorXor, ast.OperatorAndNot:
+				err = errInvalidOperation
+			case ast.OperatorLess, ast.OperatorLessEqual, ast.OperatorGreater, ast.OperatorGreaterEqual:
+				if isComplex(k) {
+					err = errInvalidOperation
+				}
+			case ast.OperatorDivision:
+				c1 = fractional(c1)
+			}
+		}
+		if err == nil {
+			c, err = c1.binaryOp(op, t2.Constant)
+		}
 		if err != nil {
 			switch err {
 			case errInvalidOperation:
@@ -1107,6 +1126,16 @@ func (tc *typechecker) binaryOp(expr1 ast.Expression, op ast.OperatorType, expr2
 	}
 
 	return &typeInfo{Type: t1.Type}, nil
+}
+
+// constantOperationKind returns the kind of the operands of a binary
+// operation, that is not a shift, between the constants t1 and t2.
+func constantOperationKind(t1, t2 *typeInfo) reflect.Kind {
+	k := t1.Type.Kind()
+	if t1.Untyped() && t2.IsNumeric() && k < t2.Type.Kind() {
+		k = t2.Type.Kind()
+	}
+	return k
 }
 
 // checkSize checks the type of expr as a make size parameter.
